@@ -166,6 +166,61 @@ Proof.
   cnt x Pm. cnt x Pd. rewrite !count_occ_app. lia.
 Qed.
 
+(* ---- the values at the end of the chain, in closed form: per stage, an added field takes the supplied value (or the
+   written one when it was left uninitialised), every other field keeps its value; then the stage's writes apply, the
+   last write to a field winning *)
+Definition stage_vals (u : ustage) (vals : nat -> nat) : nat -> nat :=
+  let s := u_s u in
+  apply_ops (fun i => if mem i (s_plus s) then (if (u_uninit u && un ds i)%bool then u_fill u i else s_pvals s i) else vals i)
+            (s_ops s).
+Fixpoint uchain_vals (vals : nat -> nat) (stages : list ustage) : nat -> nat :=
+  match stages with [] => vals | u :: rest => uchain_vals (stage_vals u vals) rest end.
+
+Theorem uchain_values : forall stages P vals b,
+  layout_ok ds TI A cap P -> uchain_ok P stages -> holds ds TI cap A P vals b ->
+  exists bf d r, uchain_run b stages = Ok (bf, d, r) /\
+                 holds ds TI cap A (ulast_data P stages) (uchain_vals vals stages) bf.
+Proof.
+  induction stages as [|u rest IH]; intros P vals b LP Hc H.
+  - exists b, [], []. split; [reflexivity|exact H].
+  - destruct Hc as (LQ & PP & PQ & HF & Hplain & Hc). set (s := u_s u) in *.
+    destruct (ustage_conv P u LP LQ PP PQ Hplain vals b H) as (b' & b1 & vals1 & E1 & Ef & H1 & Hv). fold s in E1, H1, Hv.
+    set (vals1' := fun i => if mem i (s_plus s) then (if (u_uninit u && un ds i)%bool then u_fill u i else s_pvals s i) else vals i).
+    assert (H1' : holds ds TI cap A (s_Q s) vals1' b1) by (apply (holds_ext ds TI A cap (s_Q s) vals1 vals1' b1 Hv H1)).
+    destruct (life_accounts_vals ds TI rt A cap RT (s_Q s) LQ (s_ops s) vals1' b1 H1' HF) as (b2 & d1 & E2 & H2 & _).
+    destruct (IH (s_Q s) (apply_ops vals1' (s_ops s)) b2 LQ Hc H2) as (bf & d2 & r2 & E3 & H3).
+    cbn [uchain_run]. fold s. rewrite E1.
+    destruct (s_andout s); rewrite Ef, E2, E3; eexists _, _, _; (split; [reflexivity|]); exact H3.
+Qed.
+
+(* a field that no stage adds and no stage writes keeps the value it had at the start *)
+Lemma uchain_vals_untouched i : forall stages vals,
+  Forall (fun u => ~ In i (s_plus (u_s u)) /\
+                   forall o, In o (s_ops (u_s u)) -> match o with LSet j _ => j <> i | LGet _ _ => True end) stages ->
+  uchain_vals vals stages i = vals i.
+Proof.
+  induction stages as [|u rest IH]; intros vals HF; [reflexivity|]. inversion HF as [|? ? [Hp Ho] HF']; subst.
+  cbn [uchain_vals]. rewrite (IH _ HF'). unfold stage_vals. rewrite apply_ops_notin by exact Ho.
+  destruct (mem i (s_plus (u_s u))) eqn:E; [|reflexivity]. apply mem_true in E. contradiction.
+Qed.
+
+(* ... or ended by unpack: nothing more is destroyed; what is handed back is every field of the last variant with its
+   closed-form value, and the droppable ones among them are exactly what is still owed *)
+Theorem uchain_then_unpack : forall stages P vals b v,
+  layout_ok ds TI A cap P -> uchain_ok P stages -> holds ds TI cap A P vals b ->
+  layout_ok ds TI A cap (ulast_data P stages) ->
+  exists bf valsf d r, uchain_run b stages = Ok (bf, d, r) /\
+    op_unpack ds TI rt A cap v (ulast_data P stages) bf =
+      Ok (OUnpacked (map (fun i => (nm ds i, Some (valsf i))) (ulast_data P stages)), []) /\
+    Permutation (d ++ r ++ map valsf (filter (dr ds TI) (ulast_data P stages)))
+                (map vals (filter (dr ds TI) P) ++ uentered stages).
+Proof.
+  intros stages P vals b v LP Hc H LL.
+  destruct (uchain_accounts stages P vals b LP Hc H) as (bf & valsf & d & r & E & Hf & Pm).
+  exists bf, valsf, d, r. split; [exact E|]. split; [|exact Pm].
+  apply (unpack_holds ds TI rt A cap _ LL v valsf bf Hf).
+Qed.
+
 (* a chain of Chain.v is a chain here *)
 Lemma uchain_of_chain : forall stages b,
   uchain_run b (map (fun s => mkUStage s false (fun _ => 0%nat)) stages) = chain_run ds TI rt A cap b stages.
@@ -178,3 +233,39 @@ Proof.
     rewrite IH; reflexivity.
 Qed.
 End ChainU.
+
+(* ---------------------------------------------------------------- creation by new_uninit, then the writes *)
+Section NewUninit.
+Variable ds : defs.
+Variable TI : nat -> tinfo.
+Variable rt : runtime.
+Variables (A cap : N).
+Hypothesis RT : rt_ok rt = true.
+Variable data : list nat.
+Hypothesis L : layout_ok ds TI A cap data.
+
+Lemma new_uninit_then_fill : forall v vals f,
+  (forall i, In i data -> un ds i = true -> dr ds TI i = false) ->
+  exists b0 b1 vals1,
+    op_new_uninit ds TI rt A cap v data vals = Ok (ORecord b0, []) /\
+    life ds TI rt b0 (assign_all f (filter (un ds) data)) = Ok (b1, []) /\
+    holds ds TI cap A data vals1 b1 /\
+    (forall i, In i data -> vals1 i = if un ds i then f i else vals i).
+Proof.
+  intros v vals f Hplain.
+  destruct (new_uninit_holds ds TI rt A cap RT data L v vals) as (b0 & E0 & H0).
+  pose proof (lo_nd _ _ _ _ _ L) as Hnd.
+  destruct (fill_holds ds TI rt A cap RT data L (filter (un ds) data) (filter (fun i => negb (un ds i)) data) vals b0 f H0)
+    as (b1 & vals1 & E1 & H1 & Hf & Ho).
+  - intros j Hj. apply filter_In in Hj. tauto.
+  - clear -Hnd. induction Hnd as [|x l Hx Hn IH]; simpl; [constructor|]. destruct (un ds x); auto. constructor; auto.
+    rewrite filter_In. tauto.
+  - intros i Hi. apply filter_In in Hi. destruct Hi as [Hi Hu]. split; auto. split; [|apply Hplain; auto].
+    rewrite filter_In. rewrite Hu. simpl. intros [_ Hq]. discriminate.
+  - exists b0, b1, vals1. split; [exact E0|]. split; [exact E1|].
+    split; [exact (holds_perm ds TI A cap _ _ vals1 b1 (split_un_perm (un ds) data) H1)|].
+    intros i Hi. destruct (un ds i) eqn:Eu.
+    + apply Hf. apply filter_In. auto.
+    + apply Ho. rewrite filter_In. rewrite Eu. intros [_ Hq]. discriminate.
+Qed.
+End NewUninit.
